@@ -61,6 +61,20 @@ def deviations(cls):
     out.append((['ext-attr', 'ns'], lambda x: x.extension_attributes.__setitem__('{%s}foo' % FOREIGN, NONASCII)))
     out.append((['ext-elem', 1], lambda x: x.extension_elements.append(ext_elem(1))))
     out.append((['ext-elem', 2], lambda x: x.extension_elements.append(ext_elem(2))))
+
+    def odd_names(x):
+        from saml2_tophat import ExtensionElement
+        # attribute names that are also parameter / member names of the tree builder, Python keywords
+        x.extension_elements.append(ExtensionElement('Bar', namespace=FOREIGN, attributes={
+            'attrib': '1', 'tag': '2', 'text': '3', 'tail': '4', 'self': '5', 'class': '6', 'nsmap': '7', 'extra': '8'},
+            children=[ExtensionElement('Baz', namespace=FOREIGN, attributes={'attrib': 'deep'}, text='t')]))
+    out.append((['ext-elem', 'odd-attribute-names'], odd_names))
+
+    def nonascii_names(x):
+        from saml2_tophat import ExtensionElement
+        x.extension_elements.append(ExtensionElement('B\u00e4r', namespace=FOREIGN, attributes={'attr\u00e9': 'v', '{%s}\u00fc' % FOREIGN: 'w'}, text='t'))
+    out.append((['ext-elem', 'nonascii-names'], nonascii_names))
+    out.append((['ext-attr', 'nonascii-name'], lambda x: x.extension_attributes.__setitem__('{%s}n\u00e4me' % FOREIGN, 'x')))
     return out
 
 
@@ -110,6 +124,13 @@ def roundtrip(cls, x):
         if a[4] != b[4]:
             return 'children-differ'
         return 'extension-content-differs'
+    # the same document handed over as text instead of bytes
+    try:
+        z = saml2_tophat.create_class_from_xml_string(cls, s1.decode('utf-8'))
+    except Exception as e:
+        return 'parse-of-text-form-raised:%s' % type(e).__name__
+    if z is None or schema.struct(z) != a:
+        return 'text-form-parses-differently'
     try:
         s2 = y.to_string()
     except Exception as e:
@@ -244,6 +265,23 @@ def forced_prefixes(cls):
                 return 'forced-prefix-output-%d-differs' % n
         if x.to_string() != plain:
             return 'to_string-changed-after-forced-prefixes'
+        # to_string with a prefix map whose prefixes look like the serialiser's own automatic ones (ns0, ns1, ...):
+        # whatever that call does, documents written afterwards must still be well-formed and equal
+        a, _b = nspairs_for(x)
+        auto = {'ns%d' % i: u for i, u in enumerate(reversed(list(a.values())))}
+        for nsp in (dict(list(auto.items())[:1]), auto):
+            try:
+                x.to_string(nsp)
+            except ValueError:
+                pass
+            for inst in (x, schema.base_instance(cls, 2)):
+                s = inst.to_string()
+                try:
+                    y = saml2_tophat.create_class_from_xml_string(cls, s)
+                except Exception as e:
+                    return 'output-after-auto-style-prefix-map-does-not-parse:%s' % type(e).__name__
+                if y is None or schema.struct(y) != schema.struct(inst):
+                    return 'output-after-auto-style-prefix-map-differs'
     except Exception as e:
         return 'forced-prefix-raised:%s' % type(e).__name__
     return None
